@@ -447,6 +447,110 @@ def r6_paired_advanced_indices(ctx):
     ctx.check(n >= 1, f"paired-index rule bound to {n} subscripts", O.UNC + ":1", nontrivial=False)
 
 
+def r7_every_force_counts(ctx):
+    """solvepsd: the response PSD is the sum over ALL forces of PSD_i |H_i|^2, and H_i contains a direct term (drmf[:, i]) that does not pass
+    through the equations of motion.  Hence no force may be skipped on the grounds that it does not load the equations: inside the loop over the
+    forces the accumulation must be reached on every path whose skip condition is not implied by a vanishing force PSD itself."""
+    fn = ctx.src.func("pyyeti/ode/_utilities.py", "solvepsd")
+    accs = [n for n in ast.walk(fn) if isinstance(n, ast.AugAssign) and isinstance(n.op, ast.Add) and isinstance(n.target, ast.Subscript)
+            and dotted(n.target.value) == "psd"]
+    if not accs:
+        # accumulate spelled as psd[j] = psd[j] + ...
+        accs = [n for n in ast.walk(fn) if isinstance(n, ast.Assign) and isinstance(n.targets[0], ast.Subscript) and dotted(n.targets[0].value) == "psd"
+                and any(isinstance(x, ast.Subscript) and dotted(x.value) == "psd" for x in ast.walk(n.value))]
+    if len(accs) != 1:
+        raise AnchorError("solvepsd: the PSD accumulation")
+    acc = accs[0]
+    loops = [a for a in ancestors(acc) if isinstance(a, (ast.For, ast.While))]
+    if len(loops) < 2:
+        raise AnchorError("solvepsd: force loop around the recovery-matrix loop")
+    outer = loops[-1]
+    allowed = {"forcepsd", "i", "np", "abs"} | {a.arg for a in fn.args.args if a.arg in ("forcepsd",)}
+    it = outer.target.id if isinstance(outer.target, ast.Name) else None
+    bad = []
+    n_paths = 0
+    # (a) tests that dominate the accumulation inside the force loop
+    for a in ancestors(acc):
+        if a is outer:
+            break
+        if isinstance(a, ast.If):
+            n_paths += 1
+            names = {x.id for x in ast.walk(a.test) if isinstance(x, ast.Name)}
+            # None-checks of the recovery matrices are the documented way of leaving a term out; they guard single terms, not the accumulation
+            if not names <= {"forcepsd", it, "np", "abs"}:
+                bad.append((a, "the accumulation is executed only under `%s`" % ast.unparse(a.test)))
+    # (b) early exits of an iteration before the accumulation is reached
+    for n in ast.walk(outer):
+        if isinstance(n, (ast.Continue, ast.Break)) and n.lineno < acc.lineno:
+            inner_loops = [a for a in ancestors(n) if isinstance(a, (ast.For, ast.While))]
+            if inner_loops and inner_loops[0] is not outer:
+                continue
+            guard = next((a for a in ancestors(n) if isinstance(a, ast.If)), None)
+            n_paths += 1
+            names = {x.id for x in ast.walk(guard.test) if isinstance(x, ast.Name)} if guard is not None else set()
+            if guard is None or not names <= {"forcepsd", it, "np", "abs"}:
+                bad.append((n, "force `%s` is skipped under `%s`" % (it, ast.unparse(guard.test) if guard is not None else "no condition")))
+    for node, why in bad:
+        ctx.fail("solvepsd: every force contributes PSD_i |H_i|^2, including its direct term drmf[:, i]", node,
+                 why + ": a force whose t_frc column is zero still reaches the response through drmf", key=f"C02-R7|solvepsd|{why[:60]}")
+    if not bad:
+        ctx.ok("solvepsd: every force contributes PSD_i |H_i|^2 - no iteration of the force loop can leave before the accumulation (except for a vanishing force PSD)", outer)
+    ctx.ok("solvepsd: accumulation `psd[j] += ...` sits in the recovery-matrix loop inside the force loop", acc, nontrivial=False)
+
+
+def r8_structure_assumption(ctx):
+    """A structure hint given to the linear solver for the dynamic stiffness H = i W b + k - W^2 m (scipy's assume_a / sym_pos) must be
+    justified by ALL matrices H is made of: it is read from the code that computes the hint (followed through attributes and methods of the
+    class).  No hint (the general driver) is always right."""
+    fn = ctx.src.func(O.FD, "FreqDirect.fsolve")
+    mod = ctx.src.mod(O.FD)
+    calls = [c for c in ast.walk(fn) if isinstance(c, ast.Call) and (dotted(c.func) or "").endswith("solve") and dotted(c.func) not in ("self.fsolve",)]
+    n = 0
+    for c in calls:
+        hints = [k for k in c.keywords if k.arg in ("assume_a", "sym_pos")]
+        n += 1
+        if not hints:
+            ctx.ok(f"FreqDirect.fsolve: `{ast.unparse(c.func)}` is called without a structure assumption (general driver)", c)
+            continue
+        for k in hints:
+            v = k.value
+            if isinstance(v, ast.Constant) and v.value in ("gen", "general", False, None):
+                ctx.ok("FreqDirect.fsolve: explicit general driver", c)
+                continue
+            # follow self.<attr> to its assignments in the class and the methods they call
+            seen_funcs, names = set(), set()
+            work = [v]
+            for _ in range(6):
+                nxt = []
+                for e in work:
+                    for x in ast.walk(e):
+                        d = dotted(x) if isinstance(x, ast.Attribute) else None
+                        if d and d.startswith("self."):
+                            names.add(d)
+                            for q, f in mod.funcs.items():
+                                if q.startswith("FreqDirect.") or q.startswith("_BaseODE."):
+                                    for st in ast.walk(f):
+                                        if isinstance(st, ast.Assign) and any(dotted(t) == d for t in st.targets) and id(st) not in seen_funcs:
+                                            seen_funcs.add(id(st))
+                                            nxt.append(st.value)
+                        if isinstance(x, ast.Call) and (dotted(x.func) or "").startswith("self."):
+                            q = "FreqDirect." + dotted(x.func)[5:]
+                            f = mod.funcs.get(q)
+                            if f is not None and id(f) not in seen_funcs:
+                                seen_funcs.add(id(f))
+                                nxt.append(f)
+                work = nxt
+                if not work:
+                    break
+            need_ = {"self.b", "self.k"}
+            ok = need_ <= names
+            ctx.check(ok, "FreqDirect.fsolve: the structure assumption passed to the solver is derived from every matrix of the dynamic stiffness "
+                          "(m, b and k)", c, None if ok else {"hint": ast.unparse(v), "depends on": sorted(names),
+                                                              "consequence": "an unsymmetric damping matrix makes H unsymmetric whatever m and k are"},
+                      key="C02-R8|FreqDirect.fsolve|structure assumption ignores a matrix of H")
+    ctx.check(n >= 1, "FreqDirect.fsolve: the coupled arm solves H d = F once per frequency", fn, n, nontrivial=False)
+
+
 RULES = [
     ("C02-R6", r6_paired_advanced_indices, 2),
     ("C02-R1", r1_dynamic_stiffness, 8),
@@ -454,6 +558,8 @@ RULES = [
     ("C02-R3", r3_option_gating, 12),
     ("C02-R4", r4_partition_typing, 30),
     ("C02-R5", r5_solvepsd, 9),
+    ("C02-R7", r7_every_force_counts, 2),
+    ("C02-R8", r8_structure_assumption, 2),
 ]
 LEVEL = "other"
 EXPLANATION = ("Static: every frequency-domain path divides by the same dynamic stiffness i W b + k - W^2 m (exact normal forms), derives v and a "
@@ -464,7 +570,9 @@ MANIFEST = {
     "text": "Partial claim decided statically: (R1) the denominators of SolveUnc._solve_freq_unc (m None/given), FreqDirect.fsolve uncoupled and coupled "
             "(m None/given) all equal i W b + k - W^2 m with W = 2 pi f, and the modal path uses i W - lambda with the d-rows / v-columns of the eigenvectors; "
             "(R2) v = i W d, a = -W^2 d on each partition, rigid-body v = a/(iW), d = -a/W^2 masked at W = 0; (R3) incrb / rf_disp_only gating by dominance; "
-            "(R4) partition-space typing of the frequency functions in both SolveUnc modes; (R5) solvepsd formula and trapezoid. "
+            "(R4) partition-space typing of the frequency functions in both SolveUnc modes; (R5) solvepsd formula and trapezoid; (R6) paired advanced indices; (R7) every force reaches the PSD accumulation (must-pass-through in the "
+            "force loop: only a vanishing force PSD may skip an iteration, because the direct term drmf[:, i] bypasses the equations); (R8) a structure "
+            "assumption handed to the solver of the dynamic stiffness must be derived from every matrix of H. "
             "Not decided: accuracy of the complex-mode path, singular H, library solves.",
     "note": "Trusted: CPython ast; verifier/e2_formula.py (commutative normal forms: matrix products are abstracted to scalar products), verifier/e3_spaces.py "
             "with the attribute table of verifier/ode_spaces.py (read from _BaseODE, one reason per line).",
